@@ -22,7 +22,8 @@ THEOREMS = ['C10_view_wf', 'C10_history_view_wf',
             'C10_csol_iff_solution', 'C10_solution_iff_csol', 'C10_eliminate_function', 'C10_eliminate_solution_view',
             'C10_sem_lut_buf',
             'C10_eliminate_s_names', 'C10_eliminate_s_names_perm', 'C10_eliminate_state_order_refuted',
-            'C10_eliminate_order_kept', 'C10_state_first_b_sound', 'C10_order_kept_example', 'C10_example_solution']
+            'C10_eliminate_order_kept', 'C10_state_first_b_sound', 'C10_order_kept_example', 'C10_example_solution',
+            'C10_eliminate_driverless_fork_kept']
 # substitute on arbitrary implementations (Properties/C10.v section 6; Proofs/CircuitSubstGlue.v: structure for all inputs,
 # CircuitSubstSem[Gen].v: semantics from the structure, CircuitDanglingSem.v: clean-up, CircuitSubstMain.v: assembly,
 # CircuitSubstCheck.v: per-case decision procedure, CircuitSubstExample.v / CircuitSubstWitness.v: non-vacuity and D22 / D21 / D29)
@@ -103,15 +104,59 @@ def same_function(c1, c2, rng, what, reordered=None):
     return None
 
 
-def transform_sequence(rng):
-    """random circuit of simulation primitives; copy / pickle / eliminate in random order"""
+def driverless_1to1_forks(c):
+    """non-port forks with exactly one reader and no driver: the stub forks substitute leaves for unconnected instance inputs (D38)"""
+    ios = set(c.io_nodes)
+    return [n.name for n in c.forks.values() if n not in ios and len(n.outs) == 1 and (len(n.ins) < 1 or n.ins[0] is None)]
+
+
+def eliminate_after(r, rng, what):
+    """the composition of the property: eliminate_1to1_forks() on a (resolved) circuit must not raise, must leave a consistent graph,
+    must keep every fork without driver, and must keep names and function (order of state elements: D29).  None or a message."""
+    from harness import circuit_edit as ce
+    stubs = driverless_1to1_forks(r)
+    e = r.copy()
+    try:
+        e.eliminate_1to1_forks()
+    except Exception as ex:
+        return f'{what}: eliminate_1to1_forks() raises {type(ex).__name__}: {ex} (forks with one reader and no driver: {stubs[:4]})'
+    msg = ce.invariant(e)
+    if msg:
+        return f'{what}: inconsistent after eliminate_1to1_forks(): {msg}'
+    gone = [s for s in stubs if s not in e.forks]
+    if gone:
+        return f'{what}: eliminate_1to1_forks() removed the driverless forks {gone[:4]}'
+    return same_function(r, e, rng, what + ' -> eliminate', [])
+
+
+def open_input_host(rng, tlib, kinds):
+    """one library instance with ONE input pin unconnected and (mostly) only one output connected: after resolve_tlib_cells the stub
+    fork of that input tends to have no driver and a single reader (D38)"""
+    for _ in range(20):
+        kind = rng.choice(kinds)
+        impl, pins = tlib.cells[kind]
+        ins = [n for n, (i, o) in pins.items() if not o]
+        outs = [n for n, (i, o) in pins.items() if o]
+        if len(ins) >= 2 and outs:
+            break
+    opened = rng.choice(ins)
+    co = set(outs) if rng.random() < 0.3 else {rng.choice(outs)}
+    return kind, opened, co, instance_circuit(tlib, kind, set(ins) - {opened}, co)
+
+
+def transform_sequence(rng, start=None):
+    """random circuit of simulation primitives (or the given circuit); copy / pickle / eliminate in random order"""
     # half of the circuits get arbitrary node / line creation orders (forks before cells, a state element last)
-    c, a = cg.gen_circuit(rng, allow_dangling=False, permute=rng.random() < 0.5)
-    desc = {'kind': 'sequence', 'circuit': cg.describe(c), 'steps': []}
+    if start is None:
+        c, a = cg.gen_circuit(rng, allow_dangling=False, permute=rng.random() < 0.5)
+        desc = {'kind': 'sequence', 'circuit': cg.describe(c), 'steps': []}
+    else:
+        c, desc = start
+        desc = dict(desc, kind='sequence', circuit=cg.describe(c), steps=[])
     cur = c
     reordered = []
-    for _ in range(rng.randint(1, 4)):
-        step = rng.choice(['copy', 'pickle', 'eliminate'])
+    for _ in range(rng.randint(1, 4) if start is None else rng.randint(2, 4)):
+        step = rng.choice(['copy', 'pickle', 'eliminate'] if start is None else ['copy', 'pickle', 'eliminate', 'eliminate'])
         desc['steps'].append(step)
         if step == 'copy':
             nxt = cur.copy()
@@ -119,7 +164,15 @@ def transform_sequence(rng):
             nxt = pickle.loads(pickle.dumps(cur))
         else:
             nxt = cur.copy()
-            nxt.eliminate_1to1_forks()
+            stubs = driverless_1to1_forks(nxt)
+            try:
+                nxt.eliminate_1to1_forks()
+            except Exception as ex:
+                desc['class'] = 'eliminate-raises'
+                return desc, (f'{" -> ".join(desc["steps"])}: eliminate_1to1_forks() raises {type(ex).__name__}: {ex} '
+                              f'(forks with one reader and no driver: {stubs[:4]})')
+            if [x for x in stubs if x not in nxt.forks]:
+                return desc, f'{" -> ".join(desc["steps"])}: eliminate_1to1_forks() removed a fork without driver'
         # only fork elimination may be excused for reordering state elements (known finding D29); the function is still compared
         msg = same_function(cur, nxt, rng, ' -> '.join(desc['steps']), reordered if step == 'eliminate' else None)
         if msg:
@@ -173,6 +226,10 @@ def resolve_cell(lib, tlib, kind, rng):
     subsets = [(set(in_names), set(out_names))]
     if in_names or out_names:
         subsets.append((set(x for x in in_names if rng.random() < 0.7), set(x for x in out_names if rng.random() < 0.7)))
+    if len(in_names) >= 2 and out_names:
+        # one INPUT pin unconnected, one output connected: resolve, then eliminate_1to1_forks on the result (D38)
+        opened = rng.choice(in_names)
+        subsets.append((set(in_names) - {opened}, {rng.choice(out_names)}))
     for ci, co in subsets:
         desc = {'kind': 'resolve', 'library': lib, 'cell': kind, 'connected_inputs': sorted(ci), 'connected_outputs': sorted(co)}
         c = instance_circuit(tlib, kind, ci, co)
@@ -235,6 +292,11 @@ def resolve_cell(lib, tlib, kind, rng):
                     j = len(impl.io_nodes) + (i - len(r.io_nodes))
                     if cap_i[j] is not None and t[i] >= 0 and t[i] != cap_i[j]:
                         return desc, f'next state for inputs {pv} state {sv}: resolved instance gives {t[i]}, implementation {cap_i[j]}'
+        # the composition "resolve, then eliminate forks": names, order and function before / after
+        msg = eliminate_after(r, rng, 'resolve_tlib_cells')
+        if msg:
+            desc['class'] = 'eliminate-after-resolve'
+            return desc, msg
     return None, None
 
 
@@ -366,8 +428,13 @@ def view_correspondence(ck):
     rng = random.Random(ck.seed * 7919 + 1010)
     hs = vc.witness_histories(rng)
     wok, wdetail = vc.witness_check(hs)
-    ck.obligation('the histories of the witness theorems C10_eliminate_state_order_refuted (s_nodes i,o,d1,d2 -> i,o,d2,d1) and '
-                  'C10_copy_view_not_equal (trailing None pin dropped by copy) show the same on the implementation', wok, 'oracle', wdetail)
+    ck.obligation('the histories of the witness theorems C10_eliminate_state_order_refuted (s_nodes i,o,d1,d2 -> i,o,d2,d1), '
+                  'C10_copy_view_not_equal (trailing None pin dropped by copy) and C10_eliminate_driverless_fork_kept (forks with one reader and '
+                  'no driver survive eliminate_1to1_forks, which does not raise) show the same on the implementation', wok, 'oracle', wdetail)
+    if not wok:
+        ck.fail('view:witness', 'a witness history of Properties/C10.v behaves differently on the implementation: ' + wdetail,
+                {'component': 'kyupy.circuit', 'input': {'view_ops': vc.STUB_HISTORY + [['elim'], ['elim']]} if 'stub' in wdetail else {},
+                 'actual': wdetail})
     for i in range(ck.scale(70, 400)):
         h = vc.run_view_history(rng, rng.choice([8, 20, 40, 60] if not ck.thorough else [20, 60, 120]))
         h['style'] = 'edit'
@@ -490,7 +557,8 @@ def resolve_sem_correspondence(ck, rng, libs):
         comb, seq = rsc.comb_small(tl), rsc.seq_small(tl)
         for i in range(ck.scale(14, 200)):
             try:
-                snap, desc, what, cls = rsc.multi_case(rng, lib, tl, comb, seq, capture_table)
+                snap, desc, what, cls = rsc.multi_case(rng, lib, tl, comb, seq, capture_table,
+                                                       post=lambda r: eliminate_after(r, rng, 'resolve_tlib_cells'))
             except Exception:
                 snap, desc, what, cls = None, {'kind': 'resolve-multi', 'library': lib}, 'raises ' + traceback.format_exc()[-400:], 'raises'
             ck.count(1, 'resolve-multi:' + lib)
@@ -567,6 +635,29 @@ def run(ck):
         ck.nontrivial(('s', i))
         if what:
             fails.append(('sequence:' + desc.get('class', 'function'), desc, what))
+    # the same sequences on RESOLVED circuits whose instance had an unconnected input pin (stub forks without driver, D38)
+    n_stub = 0
+    combs = {}
+    for i in range(ck.scale(40, 600)):
+        lib = rng.choice(['NANGATE', 'SAED32', 'GSC180', 'SAED90'])
+        tl = getattr(techlib, lib)
+        desc = {'kind': 'sequence', 'library': lib}
+        try:
+            if lib not in combs:
+                combs[lib] = rsc.comb_small(tl)
+            kind, opened, co, host = open_input_host(rng, tl, combs[lib])
+            desc.update({'cell': kind, 'unconnected_input': opened, 'connected_outputs': sorted(co)})
+            host.resolve_tlib_cells(tl)
+            n_stub += 1 if driverless_1to1_forks(host) else 0
+            desc, what = transform_sequence(rng, start=(host, desc))
+        except Exception:
+            what = 'raises ' + traceback.format_exc()[-400:]
+        ck.count(1, 'copy/pickle/eliminate sequences on resolved instances with an unconnected input')
+        ck.nontrivial(('sr', lib, desc.get('cell'), desc.get('unconnected_input')))
+        if what:
+            fails.append(('sequence-resolved:' + desc.get('class', 'function'), desc, what))
+    ck.obligation(f'the copy / pickle / eliminate sequences also run on resolved circuits with a fork that has one reader and no driver '
+                  f'(instance input pin unconnected): {n_stub} such circuits', n_stub > 0, 'oracle', '')
     for i in range(ck.scale(120, 3000)):
         try:
             desc, what = substitute_random(rng)
